@@ -45,11 +45,15 @@ ASSUME = [
 
 def scenarios(tp, tier):
     """[(params-without-tp, label)] for one transport."""
-    sc = ["server", "conn-cps", "conn-spc", "conn-pcs", "conn-idle", "refused", "inuse", "badattr-server",
+    sc = ["server", "conn-cps", "conn-spc", "conn-pcs", "conn-idle", "refused", "refused-b", "inuse", "badattr-server",
           "badattr-connect", "accept-badattr", "drop-accepted", "close-pending", "two", "pool101"]
     out = ["sc=%s" % s for s in sc]
     if tp in TCPISH:
-        out += ["sc=abandon-resolving", "sc=abandon-connecting", "sc=abandon-handshaking"]
+        out += ["sc=abandon-resolving", "sc=abandon-connecting", "sc=abandon-handshaking", "sc=conn-dns", "sc=dns-fail"]
+    if tp in TCPISH and tp != "utls":
+        out += ["sc=conn-local"]
+    if tp in ("ux", "uxf", "tcp", "btcp", "utls"):
+        out += ["sc=conn-b"]                 # blocking sockets (single-threaded driver: no TLS handshake possible)
     if tp in TLSISH:
         out += ["sc=badcert"]
     if tier != "quick":
@@ -114,8 +118,15 @@ def run(chk, tier, jobs, deadline):
             return cfg, None
         return cfg, harnesses.explore(exe, p, b, left, jobs=jobs_each, env=env)
 
-    # big ones first so that the tail is short
-    order = sorted(cfgs, key=lambda c: (0 if "pool101" in c[1] else 1, 0 if c[0] in TLSISH else 1))
+    # long ones first so that the tail is short; if the tier deadline cuts the run, the fork/ctl variants go first
+    def prio(c):
+        tp, p, b = c
+        if "pool101" in p:
+            return 0
+        if "forkat=" in p or "ctl=" in p:
+            return 3
+        return 1 if tp in TLSISH else 2
+    order = sorted(cfgs, key=prio)
     with ThreadPoolExecutor(max_workers=par) as ex:
         results = list(ex.map(one, order))
 
